@@ -31,9 +31,11 @@ var (
 	listeners   = []pipeline.Listener{pipeline.Incoming, pipeline.Peer}
 	stressVals  = []string{"off", "unhandled", "keep", "drop"}
 	queueVals   = []string{"ok", "full"}
-	encodings   = []string{"json-batch", "json-batch+companions", "msgpack-batch", "msgpack-batch+companions", "json-single", "msgpack-single"}
-	contentEnc  = []string{"", "gzip", "zstd"}
-	datasets    = []string{"ds", "my ds/ü%41+x"}
+	encodings   = []string{"json-batch", "json-batch+companions", "msgpack-batch", "msgpack-batch+companions", "json-single", "msgpack-single",
+		// the subject leaves out "samplerate" (libhoney does so at rate 1) between companions that carry one
+		"json-batch+companions/subject-omits-rate", "msgpack-batch+companions/subject-omits-rate"}
+	contentEnc = []string{"", "gzip", "zstd"}
+	datasets   = []string{"ds", "my ds/ü%41+x"}
 )
 
 var instant = time.Date(2031, 7, 9, 23, 59, 58, 123456789, time.UTC)
@@ -152,7 +154,11 @@ func main() {
 			ct = codec.CTMsgpack
 		}
 		var req codec.Request
-		companions := strings.HasSuffix(c.Enc, "+companions")
+		omitsRate := strings.HasSuffix(c.Enc, "/subject-omits-rate")
+		if omitsRate {
+			subject.SampleRate = 0
+		}
+		companions := strings.Contains(c.Enc, "+companions")
 		switch {
 		case strings.HasSuffix(c.Enc, "-single"):
 			req = codec.SingleEvent(c.Dataset, apiKey, ct, subject)
@@ -310,7 +316,13 @@ func main() {
 				fail(where+":dataset", fmt.Sprintf("forwarded to dataset %q, client sent %q", s.Dataset, c.Dataset))
 				return false
 			}
-			if !s.Event.HasSampleRate || s.Event.SampleRate != 7 {
+			if omitsRate {
+				// nothing supplied = rate 1: forwarded without a rate or with 1, never with a neighbour's
+				if s.Event.HasSampleRate && s.Event.SampleRate != 1 {
+					fail(where+":samplerate-invented", fmt.Sprintf("forwarded sample rate %s, the client supplied none (the batch members before and after it carry 3)", s.Event.SampleRateVal.Canon()))
+					return false
+				}
+			} else if !s.Event.HasSampleRate || s.Event.SampleRate != 7 {
 				fail(where+":samplerate", fmt.Sprintf("forwarded sample rate %s, client sent 7", s.Event.SampleRateVal.Canon()))
 				return false
 			}
